@@ -483,7 +483,8 @@ Proof.
   - intros l o; tauto.
   - apply (wf_flat _ (ex_wf [] [] [] false)).
   - split; intros D b1 b2 H1 H2; [congruence|].
-    destruct (list_N_eqb D f1) eqn:E; [|discriminate].
+    simpl in H2.
+    match type of H2 with context [list_N_eqb D ?x] => destruct (list_N_eqb D x) eqn:E end; [|discriminate].
     apply eqb_eq in E. subst D. vm_compute in H1. inversion H1; inversion H2; reflexivity.
   - apply status_sound_noindex. reflexivity.
 Qed.
